@@ -118,12 +118,12 @@ func main() {
 		}
 		t0 := time.Now()
 		c := newCtx(p, id, *tier)
-		pr.rules(c)
+		guarded(c, id, func() { pr.rules(c) })
 		extra := map[string]any{}
 		var sens *sensitivity
 		if *tier == "thorough" {
 			if pr.deep != nil {
-				pr.deep(c)
+				guarded(c, id, func() { pr.deep(c) })
 			}
 			cfgs := altConfigs(c, *repo)
 			extra["alternate_build_configs"] = cfgs
@@ -172,6 +172,24 @@ func main() {
 		code = 1
 	}
 	os.Exit(code)
+}
+
+// guarded runs the rule set of a property; a failed anchor lookup or a panic in the code that
+// prepares the rules (outside any c.Rule body) is recorded as a failing obligation instead of
+// crashing: a crash would print no report and could be mistaken for silence.
+func guarded(c *Ctx, id string, body func()) {
+	defer func() {
+		if r := recover(); r != nil {
+			rule := "R-" + id + "-setup"
+			c.ruleDocs[rule] = "the anchors shared by the rules of this property resolve"
+			if a, ok := r.(anchorErr); ok {
+				c.add(rule, "anchor:"+a.what, "", vAnchor, "the construct that carried this guarantee is gone or renamed: "+a.what+" (nothing can be concluded; not a behavioural claim)")
+				return
+			}
+			c.add(rule, "panic", "", vPanic, fmt.Sprint(r))
+		}
+	}()
+	body()
 }
 
 func envOr(k, d string) string {
